@@ -9,7 +9,7 @@ TMPD=$(mktemp -d /verif/target/refac.XXXXXX)
 export VERIF_EVIDENCE_DIR=$TMPD/evidence VERIF_REPLAYS_DIR=$TMPD/replays
 [ -z "$PAT" ] && echo -e "refactoring\tbaseline_tests\tproperty\tcheck_exit\tviolation_lines\tfirst_violation" > $OUT
 if [ -n "$(git -C /repo status --short)" ]; then echo "/repo is not clean" >&2; exit 2; fi
-declare -A PROPS=( [R1]="C03 C04 C02" [R2]="C02 C03 C05" [R3]="C04 C07 C05" [R4]="C12 C13 C14" [R5]="C11 C05 C12" [R6]="C20 C12" )
+declare -A PROPS=( [R7]="C12 C13 C14" [R8]="C03 C04 C02" [R9]="C11 C12" [R10]="C05 C07 C12" [R1]="C03 C04 C02" [R2]="C02 C03 C05" [R3]="C04 C07 C05" [R4]="C12 C13 C14" [R5]="C11 C05 C12" [R6]="C20 C12" )
 for d in refactorings/*${PAT}*/; do
   name=$(basename $d); area=${name%%-*}
   git -C /repo apply "$PWD/$d/patch.diff" || { echo -e "$name\tAPPLY_FAILED" >> $OUT; echo "$name APPLY_FAILED"; continue; }
